@@ -1033,6 +1033,25 @@ func genRange(x g) []spec.V {
 		if x.oneIn(3, "reroute") {
 			st = x.reroute(st)
 		}
+		if x.oneIn(8, "startisend") {
+			// start == end (possibly through another construction route): the
+			// empty range, whatever the sign of the step
+			e = s.Clone()
+			if x.oneIn(2, "rerouteend") {
+				e = x.reroute(e)
+			}
+			if st.N != nil && !st.N.IsInf() && x.oneIn(2, "negstep") {
+				f := ratOf(st.N)
+				if f.Sign() > 0 {
+					f.Neg(f)
+					if f.IsInt() {
+						st = spec.KnownNum(spec.NParse(f.Num().String()))
+					} else {
+						st = spec.KnownNum(spec.NParse(f.FloatString(6)))
+					}
+				}
+			}
+		}
 		return []spec.V{s, e, st}
 	}
 }
